@@ -384,14 +384,16 @@ def run_world(case, stats, record=None):
         prefix = (os.path.join(core.repo_root(), 'yaql') + os.sep,)
         wl = write_lines()
         counter = sched.LineCounter(prefix, wl)
+        need_counts = 'schedule' not in case and (case.get('sched') or {}).get(
+            'policy') in ('pct', 'writes')
         for t, ops in enumerate(case['tasks']):
             row = []
             for j, (si, di) in enumerate(ops):
-                with counter:
+                if need_counts:
+                    with counter:
+                        o = outcome_of(lambda: evaluate(si, di))
+                else:
                     o = outcome_of(lambda: evaluate(si, di))
-                o2 = outcome_of(lambda: evaluate(si, di))
-                if o != o2:
-                    unstable.add((t, j))
                 row.append(o)
             base.append(row)
         if world.snapshot() != snap0:
@@ -472,10 +474,13 @@ def run_world(case, stats, record=None):
                     both=probe['both'], recorded=baton.recorded)
         for t, ops in enumerate(case['tasks']):
             for j, (si, di) in enumerate(ops):
-                if (t, j) in unstable:
-                    stats.inc('nd.unstable_alone_skipped')
-                    continue
                 if results[t] is None or results[t][j] != base[t][j]:
+                    # is the run-alone outcome itself stable?
+                    o2 = outcome_of(lambda: evaluate(si, di))
+                    o3 = outcome_of(lambda: evaluate(si, di))
+                    if o2 != base[t][j] or o3 != base[t][j]:
+                        stats.inc('nd.unstable_alone_skipped')
+                        continue
                     viols.append({
                         'key': 'C18:result-differs-from-run-alone',
                         'clause': 'every evaluation returns exactly what it '
